@@ -204,27 +204,47 @@ def project_result(res, cfg: dict, nvox: int) -> dict:
 
 
 def rec_evaluate(pred, ref, cfg: dict, dtype=np.uint8, meta=None, evaluator=None, group="ungrouped",
-                 transform=None) -> dict:
-    """One call of Panoptica_Evaluator.evaluate, projected."""
+                 transform=None, groupdef=None) -> dict:
+    """One call of Panoptica_Evaluator.evaluate, projected.
+    groupdef = (labels of the group looked at, labels of all groups, kind) for class-group runs."""
     pred = np.asarray(pred).astype(dtype)
     ref = np.asarray(ref).astype(dtype)
-    rmap = rank_map(pred, ref)
+    glabels, gall, gkind = groupdef if groupdef else ([], [], "plain")
+    rmap = rank_map(pred, ref, np.array(list(glabels) + list(gall) + [0]))
     rec = {"shape": shape_of(ref), "pred": flat(pred, rmap), "ref": flat(ref, rmap), "cfg": cfg, "out": "ok",
-           "res": None, "meta": dict(meta or {})}
+           "res": None, "glabels": [rmap[int(x)] for x in glabels], "gall": [rmap[int(x)] for x in gall], "gkind": gkind,
+           "rel": "none", "outb": "ok", "resb": EMPTY_RES, "meta": dict(meta or {})}
     rec["meta"].update({"dtype": str(np.dtype(dtype)), "raw_pred": pred.ravel().tolist(),
                         "raw_ref": ref.ravel().tolist()})
+    out, res_rec, exc = run_evaluate(pred, ref, cfg, evaluator=evaluator, group=group, transform=transform)
+    rec["out"] = out
+    rec["res"] = res_rec
+    if exc:
+        rec["meta"].update(exc)
+    return rec
+
+
+def run_evaluate(pred, ref, cfg, evaluator=None, group="ungrouped", transform=None):
+    """-> (out, projected result, exception info)"""
     p_in, r_in = (pred, ref) if transform is None else transform(pred, ref)
     try:
         with quiet(), mem_limit():
             ev = evaluator if evaluator is not None else make_evaluator(cfg)
             out = ev.evaluate(p_in, r_in, verbose=False)
             res = out[group][0]
-        rec["res"] = project_result(res, cfg, int(np.prod(ref.shape)))
+        return "ok", project_result(res, cfg, int(np.prod(np.asarray(ref).shape))), None
     except Exception as e:  # noqa: BLE001
-        rec["out"] = "raise"
-        rec["meta"]["exception"] = f"{type(e).__name__}: {e}"[:300]
-        rec["meta"]["tb"] = traceback.format_exc()[-800:]
-        rec["res"] = EMPTY_RES
+        return "raise", EMPTY_RES, {"exception": f"{type(e).__name__}: {e}"[:300], "tb": traceback.format_exc()[-800:]}
+
+
+def attach_b(rec: dict, rel: str, outb: str, resb: dict, excb=None, meta=None) -> dict:
+    rec["rel"] = rel
+    rec["outb"] = outb
+    rec["resb"] = resb
+    if excb:
+        rec["meta"]["exception_b"] = excb.get("exception")
+    if meta:
+        rec["meta"].update(meta)
     return rec
 
 
